@@ -5,3 +5,6 @@ import XProofs.Properties.C13
 #print axioms Properties.C13.C13_generated_consistent
 #print axioms Properties.C13.C13_listing
 #print axioms Properties.C13.C13_scope_test_sound
+#print axioms Properties.C13.C13_equivalent_function_tasks
+#print axioms Properties.C13.C13_equivalent_function_tasks_decided
+#print axioms Properties.C13.C13_single_argument_function_tasks
